@@ -165,14 +165,15 @@ class Route(Generic[Interface]):
         self.path_format: str
         self.path_convertors: Dict[str, Convertor]
         self.path_format, self.path_convertors = compile_path(path)
-        self.re_pattern = re.compile(
-            self.path_format.format_map(
-                {
-                    name: f"(?P<{name}>{convertor.regex})"
-                    for name, convertor in self.path_convertors.items()
-                }
-            )
-        )
+        pattern = ""
+        idx = 0
+        for match in PARAM_REGEX.finditer(path):
+            name = match.group(1)
+            pattern += re.escape(path[idx : match.start()])
+            pattern += f"(?P<{name}>{self.path_convertors[name].regex})"
+            idx = match.end()
+        pattern += re.escape(path[idx:])
+        self.re_pattern = re.compile(pattern)
         self.endpoint: Interface = endpoint
 
     def matches(self, path: str) -> Tuple[bool, Dict[str, Any]]:
